@@ -741,9 +741,22 @@ def run_shard(params):
     res = Result()
     rng = random.Random(params["seed"] * 100109 + params["shard"])
     for i in range(params["nh"]):
-        check_hash(gen_hash_case(rng), res)
+        case = gen_hash_case(rng)
+        try:
+            check_hash(case, res)
+        except OSError as ex:
+            res.violation("unexplained:hash-workload-raised",
+                          f"a map operation of the workload failed with "
+                          f"{ex!r}", case=case.get("vars"))
     for i in range(params["nd"]):
-        check_dict(gen_dict_case(rng), res)
+        case = gen_dict_case(rng)
+        try:
+            check_dict(case, res)
+        except OSError as ex:
+            res.violation("unexplained:dict-workload-raised",
+                          f"a map operation of the workload failed with "
+                          f"{ex!r}", case=dict(kf=case["kf"], vf=case["vf"],
+                                               lru=case["lru"]))
     return res
 
 
